@@ -55,8 +55,8 @@ def run_norm(argv):
     return out.getvalue(), exc
 
 
-def normalise(text, eol, fix, mode, workdir):
-    src = os.path.join(workdir, 'in.x12')
+def normalise(text, eol, fix, mode, workdir, name='in.x12'):
+    src = os.path.join(workdir, name)
     with open(src, 'w', encoding='ascii', newline='') as fh:
         fh.write(text)
     argv = []
@@ -90,14 +90,14 @@ def check_case(case):
     out.classes = list(meta.get('classes', [])) + ['mode:' + mode, 'eol' if eol else 'no-eol', 'fix' if fix else 'no-fix']
     out.nontrivial = bool(meta.get('defects')) or 'non-default-delimiters' in meta.get('classes', [])
     out.key = [text, eol, fix, mode]
-    d, ref = x12ref.tokenize(x12ref.universal_newlines(text))
+    d, ref = x12ref.tokenize(text)
     if case.get('text2'):
         out.classes.append('two-input-files')
         check_multi(case, out)
         if out.failures:
             return out
     with tempfile.TemporaryDirectory(prefix='vpx_c20_') as wd:
-        res, exc, so = normalise(text, eol, fix, mode, wd)
+        res, exc, so = normalise(text, eol, fix, mode, wd, case.get('name') or 'in.x12')
         if exc is not None:
             out.fail(core.exc_bucket(exc, 'main'), core.exc_detail(exc))
             return out
@@ -199,7 +199,7 @@ def _repair(segs, d):
 
 
 def expected_text(text, eol, fix):
-    d, ref = x12ref.tokenize(x12ref.universal_newlines(text))
+    d, ref = x12ref.tokenize(text)
     exp = [(s.id, s.trimmed()) for s in ref]
     if fix:
         exp = _repair(exp, d)
@@ -250,7 +250,7 @@ def strategy(tier):
         icvn = draw(st.sampled_from(['00401', '00501']))
         rep = [c for c in '^`<|' if c not in (term, ele, sub)][0]
         lay = draw(st.sampled_from(['', '\n', '\r\n']))
-        vals = st.sampled_from(['A', 'X1', '100', 'NAME X', '12.5', 'HC'])
+        vals = st.sampled_from(['A', 'X1', '100', 'NAME X', '12.5', 'HC', 'A\rB', 'L1\nL2'])
 
         def cnt(true, what):
             if draw(st.integers(0, 3)) == 0:
@@ -330,8 +330,12 @@ def strategy(tier):
             else:
                 isa2 = x12ref.make_isa(ele=ele, sub=sub, term=term, icvn=icvn, rep=rep, ctl='000000009')[:-1]
                 text2 = ''.join(s_ + term + lay for s_ in [isa2, ele.join(['IEA', '0', '000000009'])])
+        # the input is named by path: a name is a name, whatever characters it contains
+        name = draw(st.sampled_from(['in.x12', 'in.x12', 'claims[1].x12', 'a b.x12', 'in?.x12', 'x*y.x12', '[ab].x12']))
+        if name != 'in.x12':
+            classes.add('file-name-with-pattern-characters')
         return {'text': text, 'eol': draw(st.booleans()), 'fix': fix, 'mode': draw(st.sampled_from(['stdout', 'outfile', 'inplace'])),
-                'text2': text2, 'meta': {'classes': sorted(classes), 'defects': defects, 'others': others}}
+                'text2': text2, 'name': name, 'meta': {'classes': sorted(classes), 'defects': defects, 'others': others}}
 
     return gen()
 
